@@ -31,8 +31,8 @@ CLAIMS = {
         "technique": T_MITER,
     },
     "C06": {
-        "text": "Proved for all valid a, b and all f64 c: partial_cmp and < <= > >= == != (TwoFloat/TwoFloat, TwoFloat/f64, f64/TwoFloat) equal the lexicographic order of the words; for ALL 2^256 word patterns: == symmetric, == iff partial_cmp == Some(Equal), any NaN word => unequal and unordered both ways; min/max return an operand, extremal, skipping an invalid operand; abs/is_sign_*/signum/copysign follow the sign of hi. Lemma L-sign (value has the sign of hi; Fix arithmetic) proved in quick; lemma L-bracket (8 one-pair Fix cases) in thorough.",
-        "note": TB + "The step 'lexicographic order of valid pairs == order of exact values' (L-lex) is mechanised only as L-bracket (thorough) + monotonicity of neighbours + transitivity on the reals (pen and paper, DESIGN section 3); natively every counterexample is re-judged with exact Fix comparison. no_overlap is replaced by its contract (proved under C07).",
+        "text": "Proved for all valid a, b and all f64 c: partial_cmp and < <= > >= == != (TwoFloat/TwoFloat, TwoFloat/f64, f64/TwoFloat) equal the lexicographic order of the words; for ALL 2^256 word patterns: == symmetric, == iff partial_cmp == Some(Equal), any NaN word => unequal and unordered both ways; min/max return an operand, extremal, skipping an invalid operand; abs/is_sign_*/signum/copysign follow the sign of hi. Lemma L-sign (value has the sign of hi; Fix arithmetic) and L-mono (neighbouring floats are ordered, adjacent ones differ in parity) proved in quick; lemma L-bracket (8 one-pair Fix cases) in thorough.",
+        "note": TB + "The step 'lexicographic order of valid pairs == order of exact values' (L-lex) is mechanised as L-bracket (thorough) + L-mono (quick); the remaining step - adding two inequalities and transitivity on the reals - is pen and paper (DESIGN section 3); natively every counterexample is re-judged with exact Fix comparison. no_overlap is replaced by its contract (proved under C07).",
         "technique": T_PROOF,
     },
     "C07": {
